@@ -612,6 +612,7 @@ func (k *checker) partBigTimestamps() {
 			}
 		}
 	}
+	k.roundTimestamps()
 }
 
 // partLocalWriters: the local write path (Storage.Set) for every kind of local account. A value is stored only if the
@@ -724,6 +725,67 @@ func (k *checker) partLocalWriters() {
 				if err != nil || len(oo.Iter) != 1 || oo.Iter[0] != docOf(kv) {
 					c.Violation("localwho/peer-stores-other", fmt.Sprintf("the value written by Set(%q) of %s is not what the owner's store holds after receiving it (%v)", key, a.name, err), rep)
 				}
+			}
+		}
+	}
+}
+
+// roundTimestamps (run with partBigTimestamps): one slot, an older value then a newer one, in every arrival order and
+// split, for timestamp pairs whose 8-byte forms have zero low bytes or differ only in their high bytes (multiples of
+// 2^16, 2^32, 2^48 next to ordinary neighbours): the newer value wins whatever its digits look like.
+func (k *checker) roundTimestamps() {
+	w, c := k.w, k.c
+	base := int64(1_700_000_000_000_000)
+	up := func(t int64, bits uint) int64 { return (t>>bits + 1) << bits }
+	pairs := [][2]int64{
+		{base + 1, up(base, 16)}, {base + 1, up(base, 32)}, {base + 1, up(base, 48)},
+		{up(base, 16), up(base, 16) + 1}, {up(base, 32), up(base, 32) + 65536}, {up(base, 16), up(base, 32)},
+		{up(base, 32) - 1, up(base, 32)}, {up(base, 48) - 1, up(base, 48)}, {255, 256}, {65535, 65536},
+	}
+	v := Val{Key: "alpha", Dev: "W1", T: 1}
+	mk := func(ts int64) *spacesyncproto.StoreKeyValue {
+		in := w.inner(v)
+		in.TimestampMicro = ts
+		in.Value = []byte(fmt.Sprint("payload@", ts))
+		return w.seal(in, w.slotId(v.Key, v.Dev), w.devKey[v.Dev], w.sim.Acc(v.acc()).Keys.SignKey)
+	}
+	for _, pr := range pairs {
+		older, newer := mk(pr[0]), mk(pr[1])
+		for oi, order := range [][][]*spacesyncproto.StoreKeyValue{{{older}, {newer}}, {{newer}, {older}}, {{older, newer}}, {{newer, older}}, {{older}, {newer}, {older}}} {
+			st := w.fresh("kvT")
+			rep := map[string]any{"part": "bigts", "round_timestamps": pr, "order": oi}
+			c.Count("evaluations", 1)
+			c.Distinct("distinct", fmt.Sprint("roundts ", pr, oi))
+			bad := false
+			for _, batch := range order {
+				if err, pn := k.setRaw(st, batch); err != nil || pn != "" {
+					c.Violation("roundts/setraw", fmt.Sprintf("timestamps %v, arrival pattern %d: SetRaw: %v %s", pr, oi, err, pn), rep)
+					bad = true
+					break
+				}
+			}
+			if bad {
+				continue
+			}
+			o, err := st.observe(keyNames)
+			if err != nil {
+				c.Violation("roundts/observe-error", fmt.Sprintf("%v: %v", pr, err), rep)
+				continue
+			}
+			if len(o.Iter) != 1 || o.Iter[0].Ts != pr[1] || o.Iter[0].Value != string(newer.Value) {
+				got := "nothing"
+				if len(o.Iter) > 0 {
+					got = fmt.Sprint("timestamp ", o.Iter[0].Ts)
+				}
+				c.Violation("roundts/newer-value-lost", fmt.Sprintf("one slot received values stamped %d and %d (arrival pattern %d): the store holds %s (%d values)", pr[0], pr[1], oi, got, len(o.Iter)), rep)
+				continue
+			}
+			els, hash, headAfter, err := st.reopened(w)
+			switch {
+			case err != nil:
+				c.Violation("roundts/reopen-error", fmt.Sprintf("%v: %v", pr, err), rep)
+			case !elsEqual(els, o.Els) || hash != o.Hash || len(headAfter) != 1 || headAfter[0] != hash:
+				c.Violation("reopen/index:round-timestamp", fmt.Sprintf("timestamps %v (arrival pattern %d): re-opened index %s / hash %s / head %v, running index %s / hash %s", pr, oi, w.elsStr(els), hash, headAfter, w.elsStr(o.Els), o.Hash), rep)
 			}
 		}
 	}
